@@ -89,6 +89,13 @@ def run(ctx, known, built):
             fails += r["fail_tree"]
         if r["fail_frame"]:
             fails += r["fail_frame"]
+        if r["fail_glyphs"]:
+            # a layer stored in `data`: the data store holds the layer's old contents.plist as an entry and
+            # writes it back over the new one (same class as the optional-directory failure)
+            if r["class_reserved"] and "F8-reserved" in known_ids:
+                ctx.known_hits["F8-reserved"] = ctx.known_hits.get("F8-reserved", 0) + 1
+            else:
+                fails += r["fail_glyphs"]
         # regression inputs: crafted UFOs with unchecked paths must be refused at load
         if r["kind"] == 2 and r["variant"] in MUST_BE_REJECTED and r["crafted_loaded"]:
             fails.append("crafted UFO variant %d (%s) loads again" % (r["variant"], "; ".join(r["notes"])))
@@ -101,7 +108,8 @@ def run(ctx, known, built):
             ctx.violations.append({
                 "seed": ctx.seed, "index": r["i"], "scenario": r, "failed": fails,
                 "demand": "after a successful save the target equals a save of the same font to a fresh path, "
-                          "optional files exist iff their part is non-empty, nothing outside the target changes",
+                          "optional files exist iff their part is non-empty, nothing outside the target changes, every glyph has a "
+                          "glif file of its own and the saved tree loads back to the same glyphs",
             })
     ctx.obligation("correspondence:C09 (%d shards)" % nshards, okshards == nshards and not ctx.disagreements,
                    "model and implementation differ")
